@@ -88,6 +88,16 @@ class Build:
             self._built["asan"] = out
         return self._built["asan"]
 
+    def vi_cov(self):
+        """source-coverage build (clang -fprofile-instr-generate -fcoverage-mapping) used only to report how much of each file a sample reaches"""
+        if "cov" not in self._built:
+            fl = ["-O0", "-g", "-w", GUARD, "-fprofile-instr-generate", "-fcoverage-mapping"]
+            objs = self._compile_all("clang", fl, os.path.join(self.scratch.root, "o.cov"), VI_SRCS)
+            out = os.path.join(self.scratch.root, "vi.cov")
+            _run(["clang", "-fprofile-instr-generate", "-o", out] + objs, self.src)
+            self._built["cov"] = out
+        return self._built["cov"]
+
     def probe(self, name, extra_srcs=(), san=True, opt="-O1", libs=()):
         """Build /verif/probe/<name>.c (which may #include repository .c files) into an
         executable in the scratch dir.  -I points at the copied repository sources."""
